@@ -30,7 +30,7 @@ Definition fx_all := {| fx1 := true; fx2 := true; fx3 := true; fx4 := true; fx5 
     e0dc5e2), C10-F4 (RFC 7234 current age / invalid Expires ignored) and C10-F5 (cache
     keys of the three authenticators and of client credentials without the ttl) not
     yet; /repo now is [fx_all] *)
-Definition fx_repo := {| fx1 := true; fx2 := true; fx3 := true; fx4 := false; fx5 := false |}.
+Definition fx_before_F4 := {| fx1 := true; fx2 := true; fx3 := true; fx4 := false; fx5 := false |}.
 
 Inductive mech := MIntro | MJwtKey | MGeneric | MClientCred | MJwtFin | MRemote | MCtx.
 
